@@ -11,6 +11,11 @@ def paths(db, fn, **kw):
     return _cache[key]
 
 
+EXCLUSIVE_GUARDS = ("lock_guard", "unique_lock", "scoped_lock")   # RAII guards that hold their mutex exclusively
+SHARED_GUARDS = ("shared_lock",)
+ALL_GUARDS = EXCLUSIVE_GUARDS + SHARED_GUARDS
+
+
 def short(name):
     return (name or "").split("::")[-1]
 
